@@ -69,6 +69,9 @@ pub struct HistCase {
     pub final_gap: u8,
     /// (kind 0 key-history / 1 input-history / 2 key-timing / 3 input real, key, recency 1-8, selector)
     pub leaves: Vec<(u8, u8, u8, u8)>,
+    /// the switch is the hold action of (tap-hold 60 60 XX ..) and the key z is pressed 10 ms after the
+    /// switch key, while the decision is pending: it has arrived (input history) but is not processed yet
+    pub under_taphold: bool,
 }
 const HKEYS: [&str; 12] = ["a", "b", "c", "d", "e", "f", "g", "h", "i", "j", "l", "s"];
 const HGAPS: [u64; 4] = [3, 10, 40, 100];
@@ -307,7 +310,7 @@ impl Case for SwCase {
             "cases": self.cases.iter().map(|(items, b)| json!({"items": items.iter().map(expr_json).collect::<Vec<_>>(), "break": b})).collect::<Vec<_>>(),
             "envs": self.envs.iter().map(env_json).collect::<Vec<_>>(), "pipeline": self.pipeline,
             "fork": self.fork.as_ref().map(|t| t.iter().map(|k| KEYS[*k]).collect::<Vec<_>>()),
-            "hist": self.hist.as_ref().map(|h| json!({"config": hist_cfg_text(h), "chords_v2": h.chords_v2, "taps": h.taps.iter().map(|(k, g, hold)| json!([k, g, hold])).collect::<Vec<_>>(), "final_gap": h.final_gap,
+            "hist": self.hist.as_ref().map(|h| json!({"config": hist_cfg_text(h), "chords_v2": h.chords_v2, "taps": h.taps.iter().map(|(k, g, hold)| json!([k, g, hold])).collect::<Vec<_>>(), "final_gap": h.final_gap, "under_taphold": h.under_taphold,
                 "leaves": h.leaves.iter().map(|(a, b, c, d)| json!([a, b, c, d])).collect::<Vec<_>>()}))})
     }
     fn from_json(v: &Value) -> Option<Self> {
@@ -330,6 +333,7 @@ impl Case for SwCase {
                     chords_v2: h["chords_v2"].as_bool()?,
                     taps: h["taps"].as_array()?.iter().map(|t| Some((t[0].as_u64()? as u8, t[1].as_u64()? as u8, t[2].as_bool()?))).collect::<Option<Vec<_>>>()?,
                     final_gap: h["final_gap"].as_u64()? as u8,
+                    under_taphold: h["under_taphold"].as_bool().unwrap_or(false),
                     leaves: h["leaves"].as_array()?.iter().map(|t| Some((t[0].as_u64()? as u8, t[1].as_u64()? as u8, t[2].as_u64()? as u8, t[3].as_u64()? as u8))).collect::<Option<Vec<_>>>()?,
                 })
             } else {
@@ -621,7 +625,13 @@ fn hist_leaf(h: &HistCase, i: usize) -> (String, bool) {
     // most recent first
     let mut inputs: Vec<usize> = presses.iter().map(|p| p.0).collect();
     inputs.push(11);
+    if h.under_taphold {
+        // the key pressed while the tap-hold is pending (z, in no leaf) is the most recent input
+        inputs.push(99);
+    }
     inputs.reverse();
+    // (the age of a key press grows while the tap-hold waits: no timing leaves there)
+    let kind = if h.under_taphold && kind % 4 == 2 { 1 } else { kind };
     let keys: Vec<(usize, u64)> = presses.iter().rev().filter(|p| p.0 < 10).map(|p| (p.0, p.1)).collect();
     match kind % 4 {
         0 => {
@@ -655,9 +665,16 @@ fn hist_cfg_text(h: &HistCase) -> String {
     if h.chords_v2 {
         s.push_str(" concurrent-tap-hold yes");
     }
-    s.push_str(")\n(defsrc a b c d e f g h i j l s y z)\n(deflayer base a b c d e f g h i j (layer-while-held nav) (switch");
+    s.push_str(")\n(defsrc a b c d e f g h i j l s y z)\n(deflayer base a b c d e f g h i j (layer-while-held nav) ");
+    if h.under_taphold {
+        s.push_str("(tap-hold 60 60 XX ");
+    }
+    s.push_str("(switch");
     for i in 0..h.leaves.len() {
         s.push_str(&format!(" ({}) {} fallthrough", hist_leaf(h, i).0, OUTS[i]));
+    }
+    if h.under_taphold {
+        s.push(')');
     }
     s.push_str(") y z)\n(deflayer nav _ _ _ _ _ _ _ _ _ _ _ _ _ _)\n");
     if h.chords_v2 {
@@ -686,6 +703,11 @@ fn run_hist(h: &HistCase) -> Verdict {
     sim.tick_n(ts - sim.ticks);
     let before = sim.outs.len();
     sim.press(code_of("s"));
+    if h.under_taphold {
+        sim.tick_n(10);
+        sim.press(code_of("z"));
+        sim.tick_n(60);
+    }
     sim.tick_n(14);
     let out_codes: Vec<u16> = OUTS.iter().map(|n| code_of(n)).collect();
     let mut fired: Vec<usize> = sim.outs[before..].iter().filter_map(|o| if let OutEv::Down(k) = o.ev { out_codes.iter().position(|c| *c == k) } else { None }).collect();
@@ -693,6 +715,10 @@ fn run_hist(h: &HistCase) -> Verdict {
     fired.dedup();
     sim.release(code_of("s"));
     sim.tick_n(5);
+    if h.under_taphold {
+        sim.release(code_of("z"));
+        sim.tick_n(5);
+    }
     for (k, _, hold) in presses.iter().rev() {
         if *hold {
             sim.release(code_of(HKEYS[*k]));
@@ -710,6 +736,9 @@ fn run_hist(h: &HistCase) -> Verdict {
         );
     }
     v.classes.push("typed-history");
+    if h.under_taphold {
+        v.classes.push("typed-history-switch-under-pending-tap-hold");
+    }
     if h.chords_v2 {
         v.classes.push("typed-history-with-chords-v2");
     }
@@ -793,7 +822,7 @@ impl TypedProp for C10 {
     fn info(&self) -> PropInfo {
         PropInfo {
             level: "translation_validation",
-            rule: "programs: switch condition expressions printed from an AST, compiled by the real parser, and evaluated by the real Switch::actions on generated environments (active keys, active inputs real/virtual, key and input histories with ages, layer stack, base layer); compared with a reference evaluation of the written expression (not = none of, top-level list = or, empty list = default case, cases top to bottom, break stops, key-timing at the documented rounded-down resolution, lt = at most, gt = more than). Exhaustive part: every expression shape of up to N nodes (N=6 quick, 7 thorough; and/or/not with 1-3 operands over key leaves a,b,c) x all 8 truth assignments. Random part: expressions up to 200 nodes / depth 7 over all seven leaf kinds, 1-12 cases with break/fallthrough, 6 environments each. Pipeline part: held keys + press of the switch / fork key through the whole state machine. Typed-history part (a quarter of the random cases): 0-12 keys are typed (tapped or held, among them a layer-while-held key, gaps 3-100 ms, with or without a defchordsv2 block in the configuration), then a switch key whose 1-6 cases each test one key-history / input-history / key-timing / input-real leaf with fallthrough; the cases that fire must be exactly the leaves that are true of what was typed (recency 1 of input-history = the switch key itself; key-timing thresholds 20 or 40 ms away from the true age). Non-trivial: every program (each is a distinct compiled expression).",
+            rule: "programs: switch condition expressions printed from an AST, compiled by the real parser, and evaluated by the real Switch::actions on generated environments (active keys, active inputs real/virtual, key and input histories with ages, layer stack, base layer); compared with a reference evaluation of the written expression (not = none of, top-level list = or, empty list = default case, cases top to bottom, break stops, key-timing at the documented rounded-down resolution, lt = at most, gt = more than). Exhaustive part: every expression shape of up to N nodes (N=6 quick, 7 thorough; and/or/not with 1-3 operands over key leaves a,b,c) x all 8 truth assignments. Random part: expressions up to 200 nodes / depth 7 over all seven leaf kinds, 1-12 cases with break/fallthrough, 6 environments each. Pipeline part: held keys + press of the switch / fork key through the whole state machine. Typed-history part (a quarter of the random cases): 0-12 keys are typed (tapped or held, among them a layer-while-held key, gaps 3-100 ms, with or without a defchordsv2 block in the configuration), then a switch key whose 1-6 cases each test one key-history / input-history / key-timing / input-real leaf with fallthrough; the cases that fire must be exactly the leaves that are true of what was typed (recency 1 of input-history = the switch key itself; key-timing thresholds 20 or 40 ms away from the true age); in a quarter of these the switch is the hold action of a tap-hold and another key is pressed while that decision is pending: it has arrived, so it is the most recent input, but is not in the key history yet. Non-trivial: every program (each is a distinct compiled expression).",
             assumptions: vec!["the environment handed to Switch::actions is generated directly, so history ages and the lossy key-timing ranges are exercised without waiting".into()],
             extra: BTreeMap::new(),
         }
@@ -808,7 +837,7 @@ impl TypedProp for C10 {
                 },
             exhaustive: false,
             distinct_by_construction: false,
-            required_classes: vec!["switch-direct", "switch-pipeline", "fork-pipeline", "trigger-held-by-macro", "typed-history", "typed-history-with-chords-v2", "typed-history>=8-keys", "typed-history-layer-key-held", "depth>=6", "cases>=8", "nodes>=20", "exhaustive-shape"],
+            required_classes: vec!["switch-direct", "switch-pipeline", "fork-pipeline", "trigger-held-by-macro", "typed-history", "typed-history-with-chords-v2", "typed-history>=8-keys", "typed-history-layer-key-held", "typed-history-switch-under-pending-tap-hold", "depth>=6", "cases>=8", "nodes>=20", "exhaustive-shape"],
             hang_secs: 60,
         }
     }
@@ -837,17 +866,19 @@ impl TypedProp for C10 {
                 prop::collection::vec((0u8..11, 0u8..4, prop::bool::weighted(0.2)), 0..13),
                 0u8..4,
                 prop::collection::vec((0u8..4, 0u8..12, 0u8..8, 0u8..8), 1..7),
+                prop::bool::weighted(0.25),
             )
-                .prop_map(|(chords_v2, taps, final_gap, leaves)| SwCase {
+                .prop_map(|(chords_v2, taps, final_gap, leaves, under_taphold)| SwCase {
                     cases: vec![],
                     envs: vec![],
                     pipeline: false,
                     fork: None,
                     hist: Some(HistCase {
-                        chords_v2,
+                        chords_v2: chords_v2 && !under_taphold,
                         taps,
                         final_gap,
                         leaves,
+                        under_taphold,
                     }),
                 })
                 .boxed();
